@@ -530,11 +530,17 @@ class Pipeline:
         result_from_cache = False
         if use_cache:
             assert cache is not None
-            cache_key = compute_cache_key(
-                func.output_name,
-                self._func_defaults(func) | flat_scope_kwargs | func._bound,
-                root_args,
-            )
+            if flat_scope_kwargs.keys() & self.output_to_func.keys():
+                # An intermediate result was supplied by the caller: it replaces its
+                # producer, so the result is no longer determined by the root arguments
+                # alone. Neither look up nor store such a result.
+                cache_key = None
+            else:
+                cache_key = compute_cache_key(
+                    func.output_name,
+                    self._func_defaults(func) | flat_scope_kwargs | func._bound,
+                    root_args,
+                )
             return_now, result_from_cache = get_result_from_cache(
                 func,
                 cache,
